@@ -57,6 +57,14 @@ def _agrees(obs, exp):
 def replay_case(case):
     o1, o2 = _observe_both(case["in"]["txt"])
     bad = []
+    # history: the (memoised, stateful) parser must give the same answer when asked again, also with
+    # the documented defaults passed explicitly
+    from chempy.util.parsing import formula_to_composition, _latex_mapping
+    t = fc.code_text(case["in"]["txt"])
+    again = fc.observe(lambda s: formula_to_composition(s, prefixes=list(_latex_mapping.keys()),
+                                                        suffixes=("(s)", "(l)", "(g)", "(aq)")), t)
+    if {k: v for k, v in again.items() if k != "exc"} != {k: v for k, v in o1.items() if k != "exc"}:
+        bad.append(("formula_to_composition[second call, explicit defaults]", again))
     if not _agrees(o1, case["exp"]):
         bad.append(("formula_to_composition", o1))
     if not _agrees(o2, case["exp"]):
